@@ -38,6 +38,7 @@ struct Config {
     uint64_t sched_seed = 1;
     std::vector<Switch> replay;
     uint64_t step_budget = 2000000;
+    bool keep_sync_state = false;       // the main thread already made library calls since reset_library_globals() (object handoff)
 };
 
 struct Result {
@@ -49,6 +50,7 @@ struct Result {
     uint64_t write_shared_locations = 0;   // bytes written by one thread and touched by another
     uint64_t sync_ops = 0, atomic_ops = 0, pseudo_writes = 0, spin_yields = 0;
     std::string abort_what;
+    std::string bad_free;               // free()/realloc() of a pointer into some thread's stack / thread-local block
 };
 
 void init();                                        // once per process (maps, pristine snapshot)
@@ -72,6 +74,8 @@ void set_abort_hook(abort_hook h);          // called on the aborting thread aft
 void enter_sut();
 void leave_sut();
 bool thread_aborted();                              // this thread hit abort()/assert inside the library
+// does p point into the stack / thread-local block of a simulated thread of the last run that has been joined? (-1: no)
+int finished_thread_owning(const void *p);
 
 // sequential (unscheduled) mode for reference runs: callbacks count steps only
 void begin_sequential();
